@@ -44,7 +44,7 @@ import (
 
 // KnownEmptyPayload is the id under which the empty-payload defect of the AES-ECB
 // unpadding (FINDINGS.md) may be listed in known_findings.json.
-const KnownEmptyPayload = "D-C18-1"
+const KnownEmptyPayload = "D12"
 
 // ------------------------------------------------------------------ RSA environment
 
@@ -668,11 +668,11 @@ func GenJWTReq(t *rapid.T, secret, prev string, now int64) JWTReq {
 		detail = fmt.Sprintf("near%d", which)
 		tok = resign(hdrJSON, payJSON, alg, []byte(k))
 	case "alg-none":
-		name := rapid.SampledFrom([]string{"none", "None", "NONE", "nOnE"}).Draw(t, "noneName")
+		name := rapid.SampledFrom([]string{"none", "none", "none", "None", "NONE", "nOnE"}).Draw(t, "noneName")
 		h := hdrWithAlg(strconv.Quote(name))
 		in := b64u(h) + "." + b64u(payJSON)
-		switch rapid.IntRange(0, 2).Draw(t, "noneSig") {
-		case 0:
+		switch rapid.IntRange(0, 3).Draw(t, "noneSig") {
+		case 0, 3:
 			tok = in + "."
 		case 1:
 			tok = in + "." + segs[2]
@@ -1052,7 +1052,7 @@ type CSReq struct {
 	AESKey              []byte
 	Resp                []byte
 	RespChunks          int
-	EmptyEncrypted      bool // signature of the known finding D-C18-1
+	EmptyEncrypted      bool  // signature of the known finding D12
 	GenNow              int64 // the instant the timestamp was chosen against
 	Desc                string
 }
@@ -1096,7 +1096,7 @@ func genBytes(t *rapid.T, label string, big bool) []byte {
 
 // CSGenOpt tunes the generator.
 type CSGenOpt struct {
-	// ExcludeEmptyEncrypted: the known finding D-C18-1 is listed; do not generate its
+	// ExcludeEmptyEncrypted: the known finding D12 is listed; do not generate its
 	// signature (an empty payload sent as an encrypted body).
 	ExcludeEmptyEncrypted bool
 	// UseCodecEncrypter, if set, encrypts the secret with go-zero's own client-side
@@ -1186,7 +1186,7 @@ func GenCSReq(t *rapid.T, st *verifkit.Stats, env *Env, conf CSConf, now int64, 
 	case tk < 25:
 		off = 0
 	case tk < 55:
-		off = rapid.Int64Range(-(tol - 5), tol-5).Draw(t, "tsOff")
+		off = rapid.Int64Range(-(tol-5), tol-5).Draw(t, "tsOff")
 	case tk < 70:
 		off = tol - 5
 		timeDesc = "inside-edge-future"
@@ -1464,7 +1464,7 @@ func target(path, query string) string {
 
 // SendCS performs the request and checks it against the reference.  It returns a
 // description of the violated clause ("" if none) and whether it is exactly the
-// signature of the known finding D-C18-1.
+// signature of the known finding D12.
 func SendCS(env *Env, conf CSConf, gate http.Handler, probe *Probe, req CSReq, st *verifkit.Stats) (problem string, emptyPayloadDefect bool, inconclusive bool) {
 	var body io.Reader = http.NoBody
 	if len(req.Body) > 0 {
@@ -1669,7 +1669,7 @@ type CryptCase struct {
 }
 
 // CheckCrypt sends the case and returns the violated clause ("" if none) and whether
-// it is the signature of the known finding D-C18-1 (empty payload, encrypted).
+// it is the signature of the known finding D12 (empty payload, encrypted).
 func CheckCrypt(c CryptCase, build CryptBuild) (problem string, emptyPayloadDefect bool) {
 	probe := &Probe{}
 	h := build(c.Key, probe)
